@@ -62,6 +62,69 @@ def role_delta(ab, before, edits):
     return sorted((b - a).elements())[:12], sorted((a - b).elements())[:12]
 
 
+# C01: "the optional keyword and *matching* name after 'end'": module -> (role of the name at the start, role of the
+# name after end, role of the keyword that opens an instance)
+END_NAMES = {
+    "architecture_body": ("identifier", "architecture_simple_name", "architecture_keyword"),
+    "block_statement": ("block_label", "end_block_label", "block_keyword"),
+    "case_generate_statement": ("generate_label", "end_generate_label", "case_keyword"),
+    "for_generate_statement": ("generate_label", "end_generate_label", "for_keyword"),
+    "if_generate_statement": ("generate_label", "end_generate_label", "if_keyword"),
+    "case_statement": ("case_label", "end_case_label", "case_keyword"),
+    "component_declaration": ("identifier", "component_simple_name", "component_keyword"),
+    "configuration_declaration": ("identifier", "configuration_simple_name", "configuration_keyword"),
+    "context_declaration": ("identifier", "context_simple_name", "context_keyword"),
+    "entity_declaration": ("identifier", "entity_simple_name", "entity_keyword"),
+    "if_statement": ("if_label", "end_if_label", "if_keyword"),
+    "loop_statement": ("loop_label", "end_loop_label", "loop_keyword"),
+    "package_declaration": ("identifier", "end_package_simple_name", "package_keyword"),
+    "package_body": ("package_simple_name", "end_package_simple_name", "package_keyword"),
+    "process_statement": ("process_label", "end_process_label", "process_keyword"),
+}
+
+
+def end_names(toks, init_ids):
+    """names after 'end' that were inserted by the run (not objects of the input) and do not repeat the name their
+    construct starts with; nesting is followed per token module"""
+    st = {}  # module -> dict(stack, pending, closing, fresh)
+    bad = []
+    for t in toks:
+        mod = type(t).__module__
+        if not mod.startswith("vsg.token."):
+            continue
+        m = mod[len("vsg.token."):]
+        spec = END_NAMES.get(m)
+        if spec is None:
+            continue
+        opener, endname, kw = spec
+        role = type(t).__name__
+        d = st.setdefault(m, {"stack": [], "pending": None, "closing": None, "in_end": False, "fresh": False})
+        v = (t.get_value() or "").lower()
+        if role == endname and d["in_end"]:
+            if id(t) not in init_ids and d["closing"] != v:
+                bad.append({"module": m, "expected": d["closing"], "found": v})
+        elif role == opener and not d["in_end"]:
+            if d["fresh"] and d["stack"] and d["stack"][-1] is None:
+                d["stack"][-1] = v  # name follows the keyword (architecture rtl, entity e, ...)
+            else:
+                d["pending"] = v  # label precedes the keyword
+            d["fresh"] = False
+        elif role == kw and not d["in_end"]:
+            d["stack"].append(d["pending"])
+            d["pending"] = None
+            d["fresh"] = True
+        elif role == "end_keyword":
+            d["closing"] = d["stack"].pop() if d["stack"] else None
+            d["in_end"] = True
+            d["fresh"] = False
+        elif role == "semicolon" and d["in_end"]:
+            d["in_end"] = False
+            d["closing"] = None
+        else:
+            d["fresh"] = d["fresh"] and role in ("is_keyword", "colon", "body_keyword")
+    return bad
+
+
 def exc_text(e):
     tb = traceback.extract_tb(e.__traceback__)
     where = " <- ".join("%s:%d" % (os.path.basename(f.filename), f.lineno) for f in tb[-3:][::-1])
@@ -171,6 +234,7 @@ def run_one(job):
         out["exception"] = exc_text(e)
         return out
     out["lines_in"] = len(lines)
+    init_ids = set(map(id, o.lAllObjects))
     # what a plain check of the same input reports (C07: the report a user acts on vs. what --fix then does)
     check_report = {}
     try:
@@ -312,6 +376,10 @@ def run_one(job):
         tf.write("E " + ab.digest(o.lAllObjects) + "\n")
         tf.close()
     out["had_violations"] = bool(rl.had_violations)
+    try:
+        out["end_name_mismatch"] = end_names(o.lAllObjects, init_ids)[:6]
+    except Exception as e:  # noqa
+        out["end_name_mismatch"] = []
     out["quiet_reporters"] = untouched["quiet"][:30]
     if out["status"] != "ok":
         return out
@@ -342,8 +410,11 @@ def run_one(job):
                 rl2.check_rules(bAllPhases=True, lSkipPhase=cla.skip_phase)
                 rep_re = sorted(observe.violations_of(rl2.rules))
                 if rep_re != rep_mem:
-                    extra = [v for v in rep_re if v not in rep_mem][:3]
-                    missing = [v for v in rep_mem if v not in rep_re][:3]
+                    import collections as _c
+
+                    c_re, c_mem = _c.Counter(map(tuple, rep_re)), _c.Counter(map(tuple, rep_mem))  # multisets: a violation listed twice counts
+                    extra = [list(v) for v in (c_re - c_mem).elements()][:3]
+                    missing = [list(v) for v in (c_mem - c_re).elements()][:3]
                     out["report_diff"] = {"only_fresh": extra, "only_after_fix": missing}
                 # C09: a second (and up to fifth) fix of the written text
                 texts = [text1]
